@@ -242,6 +242,34 @@ func familyInputs(r *Run, n int) map[string][]byte {
 		}
 		out["label-mutual-pointers"] = mp
 	}
+	{ // names whose label CONTENT octets spell a second chain of labels in another alignment (every content octet
+		// equals the label length, so a walk started inside a label steps over the real terminators and runs through
+		// name after name), followed by bare pointers to the middle of a label: each such pointer denotes a name
+		// longer than any name may be, whatever was measured on the way there
+		for _, L := range []int{31, 63, 7} {
+			var b []byte
+			per := 200 / (L + 1)
+			for len(b) < n/2 || len(b) < 600 {
+				for k := 0; k < per; k++ {
+					b = append(b, byte(L))
+					for j := 0; j < L; j++ {
+						b = append(b, byte(L))
+					}
+				}
+				b = append(b, 0)
+				if len(b) >= 1<<14-300 {
+					break
+				}
+			}
+			for len(b)+2 <= n || len(b) < 700 {
+				b = append(b, 0xc0, 1)
+			}
+			out[fmt.Sprintf("label-hidden-chain-%d", L)] = b
+			if L == 31 {
+				out["v6-domain-list-hidden-chain"] = append([]byte{1, 0, 0, 1}, tlvb(24, clip(b, 65000))...)
+			}
+		}
+	}
 	{ // unterminated label chain
 		var b []byte
 		for len(b)+2 <= n {
